@@ -444,6 +444,8 @@ func (t *WeightedMerkleTrie) RollbackTrie(node Node) {
 		batcher.Commit(false) //nolint:errcheck
 	}
 	t.created = nil
+	// like Rollback: the nodes replaced since the checkpoint are live again
+	t.tempDeleted = nil
 	clear(t.deleted)
 }
 
